@@ -101,6 +101,8 @@ PINS = {
 }
 # PINNED VALUES (filled in below; `python -m translate.tr_shares --pins <src>` prints the current ones)
 PINNED = {
+    "shares/model.py:SharedDirectory:<fields>": "7a34ed63770a061a",
+    "shares/model.py:SharedItem:<fields>": "8714d012fb814bea",
     "shares/manager.py::scan_directory": "078262426961804c",
     "shares/manager.py:SharesManager:scan_directory_files": "7855eeca14d55849",
     "shares/manager.py:SharesManager:add_shared_directory": "960fe55b58fd5416",
@@ -151,6 +153,19 @@ def current_pins(src: Path) -> dict:
         if f not in trees:
             trees[f] = ast.parse((src / 'aioslsk' / f).read_text())
         out[f'{f}:{cls or ""}:{name}'] = fingerprint(_func(trees[f], name, cls))
+    return out
+
+
+def field_pins(src: Path) -> dict:
+    """dataclass decorator + field declarations (which fields take part in eq / hash) of SharedDirectory and SharedItem"""
+    tree = ast.parse((src / 'aioslsk' / 'shares' / 'model.py').read_text())
+    out = {}
+    for cls in ('SharedDirectory', 'SharedItem'):
+        c = next((n for n in ast.walk(tree) if isinstance(n, ast.ClassDef) and n.name == cls), None)
+        if c is None:
+            raise Refuse(f'class {cls} not found')
+        text = '|'.join([ast.unparse(d) for d in c.decorator_list] + [ast.unparse(st) for st in c.body if isinstance(st, ast.AnnAssign)])
+        out[f'shares/model.py:{cls}:<fields>'] = hashlib.sha256(text.encode()).hexdigest()[:16]
     return out
 
 
@@ -347,6 +362,7 @@ def translate(src: Path) -> dict:
 
     # ---- fingerprints of the procedural rest
     cur = current_pins(src)
+    cur.update(field_pins(src))
     diff = [k for k in cur if PINNED.get(k) != cur[k]]
     if diff:
         raise Refuse('source of hand-modelled functions changed (normalised-AST fingerprint): ' + ', '.join(sorted(diff)))
